@@ -135,3 +135,15 @@ def _c18_delegate_edit(p):
         return False
     zero_head = "0" * (len(got) - 16)          # delegate form: every byte but the last eight is zero
     return got.startswith(zero_head) and orig.startswith(zero_head) and d.get("payment_id") == 0
+
+
+
+@predicate("R13a-C09")
+def _r13a_c09(p):
+    """a completed template was refused (conjunct 1) and that template's ancestor list is not the list of its real
+    predecessors, which happens only on top of an accepted block with a wrong ancestor list (R13a)"""
+    if p.get("corr") or p.get("code", 0) % 100 != 1:
+        return False
+    d = (p.get("record") or {}).get("data") or {}
+    op = p.get("code", 0) // 100
+    return any(r.get("op") == op and r.get("ancestors_real") is False for r in d.get("rejected_templates") or [])
